@@ -102,6 +102,8 @@ fn play(src: &str, ops: &[String]) -> serde_json::Value {
         "errors": story.get_current_errors(),
         "warnings": story.get_current_warnings(),
         "result": result,
+        "choices": story.get_current_choices().iter().map(|c| c.text.clone()).collect::<Vec<String>>(),
+        "can_continue": story.can_continue(),
         "delivered": *delivered.borrow(),
         "notifications": *notes.borrow(),
         "external_calls": *calls.borrow(),
